@@ -101,7 +101,8 @@ class LineScheduler(object):
         for _ in range(n):
             if not self.ctrl.acquire(timeout=self.timeout):
                 raise Deadlock("thread did not reach its first gate")
-        pending = list(schedule)
+        import collections
+        pending = collections.deque(schedule)
         rr = 0
         steps = 0
         while not all(self.done):
@@ -110,7 +111,7 @@ class LineScheduler(object):
                 raise Deadlock("all unfinished threads are blocked: %r" % ([(t, self.last_pos[t]) for t in range(n) if not self.done[t]],))
             t = None
             while pending:
-                cand = pending.pop(0) % n
+                cand = pending.popleft() % n
                 if cand in enabled:
                     t = cand
                     break
